@@ -473,7 +473,7 @@ XSD_11_BUILTIN_TYPES: tuple[dict[str, Any], ...] = XSD_COMMON_BUILTIN_TYPES + (
         'datatype': datatypes.DateTimeStamp,
         'python_type': datatypes.DateTimeStamp,
         'base_type': nm.XSD_DATETIME,
-        'to_python': datatypes.DateTime.fromstring,
+        'to_python': datatypes.DateTimeStamp.fromstring,
         'facets': [Element(nm.XSD_EXPLICIT_TIMEZONE, value='required')],
     },  # [-][Y*]YYYY-MM-DD[Thh:mm:ss] with required timezone
     {
